@@ -158,6 +158,18 @@ fn gen_c02(cfg: &GenCfg, rng: &mut Rng, w: &mut dyn Write, kind: &str) {
             pool.push(name);
         }
     }
+    // the connectives inside histories: handles are dropped, collections free nodes (also nodes
+    // whose only referrer dies in the same collection) and later operations reuse the slots, so
+    // a memoised result that survives a collection is served for different operands
+    let cases = if cfg.thorough { 120 } else { 16 } * cfg.scale;
+    for c in 0..cases {
+        let n = rng.range(3, 5) as u32;
+        let cache = *rng.pick(&[16usize, 1024, 65536]);
+        writeln!(w, "case c02-hist-{}-n{}-c{}", c, n, cache).unwrap();
+        writeln!(w, "mgr nodes=65536 cache={} threads=1 vars={}", cache, n).unwrap();
+        let hcfg = Hist { steps: if cfg.thorough { 160 } else { 100 }, dump_every: 0, audit_every: 0, count_every: 0, nodes_every: 0, reorder: false, addvars: false, gc_prob: 6, quant: false };
+        history(w, rng, kind, n, &hcfg, 6);
+    }
 }
 
 
